@@ -208,6 +208,11 @@ func (k Keeper) ForceValidatorUnstake(ctx sdk.Ctx, validator types.Validator) sd
 	k.BeforeValidatorUnstaked(ctx, validator.GetAddress())
 	// delete the validator from staking set as they are unstaked
 	k.deleteValidatorFromStakingSet(ctx, validator)
+	// a validator that was unstaking also leaves the unstaking queue, otherwise the stale
+	// entry would release a later unstake of the same validator at the old completion time
+	if validator.IsUnstaking() {
+		k.deleteUnstakingValidator(ctx, validator)
+	}
 	// amount unstaked = stakedTokens (nothing is left to burn if a slash already took everything)
 	if validator.StakedTokens.IsPositive() {
 		err := k.burnStakedTokens(ctx, validator.StakedTokens)
